@@ -8,6 +8,7 @@ import collections, importlib, os, sys, json
 HERE = os.path.dirname(os.path.dirname(os.path.abspath(__file__)))
 sys.path.insert(0, os.path.join(os.environ.get("Y0_REPO", "/repo"), "src")); sys.path.insert(0, HERE)
 import warnings; warnings.simplefilter("ignore")
+import logging; logging.disable(logging.CRITICAL)
 from hypothesis import given, settings, seed, HealthCheck, Phase
 def main():
     prop = sys.argv[1]; n = int(sys.argv[2]) if len(sys.argv) > 2 else 500; sd = int(sys.argv[3]) if len(sys.argv) > 3 else 0
